@@ -22,11 +22,12 @@ from collections import defaultdict
 from specs import core as S
 from specs import meshfast as F
 from vlib import domains as D
-from vlib.core import bad, check, ok
+from vlib.core import CaseTimeout, bad, check, ok
 
 LEVEL = "exploration"
 
-MAX_MONITORS = 3000  # resource bound for the clean-up phase (product of #shadings)
+MAX_MONITORS = 3000  # resource bounds for the clean-up phase (product of #shadings on the first level,
+MAX_PATTERNS_CLEANUP = 12  # total number of learned patterns)
 
 
 def _quiet(fn, *args, **kwargs):
@@ -242,7 +243,11 @@ def _monitor_count(SG):
 
 
 def _cleanup_applicable(SG):
-    return bool(SG) and any(SG[k] for k in SG) and _monitor_count(SG) <= MAX_MONITORS and sum(len(v) for k in SG for v in SG[k].values()) <= 60
+    """run_clean_up needs a learned pattern; its monitor list starts as the product of the
+    numbers of shadings on the shortest level and every failing monitor is extended by
+    every 'savior' pattern, so the checker only feeds it small outputs (resource bound)."""
+    return (bool(SG) and any(SG[k] for k in SG) and _monitor_count(SG) <= MAX_MONITORS
+            and sum(len(v) for k in SG for v in SG[k].values()) <= MAX_PATTERNS_CLEANUP)
 
 
 @check("C17.cleanup")
@@ -254,12 +259,17 @@ def cleanup(item):
     A = sorted(A, key=_key)
     SG = _quiet(bisc, A, m, n)
     if not _cleanup_applicable(SG):
-        return ok(False)  # run_clean_up needs a learned pattern; monitor product bounded (resource)
+        return ok(False)
     members = set(A)
     B = {k: [p for j, p in enumerate(D.perms(k)) if p not in members and (not thin or (j + k) % thin)] for k in range(bm + 1)}
     lo = min(SG.keys())
     limit = 0 if limit_mode == 0 else len(SG[lo]) + (limit_mode - 1)
-    bases, numbs = _quiet(run_clean_up, SG, B, bm, limit_monitors=limit)
+    try:
+        bases, numbs = _quiet(run_clean_up, SG, B, bm, limit_monitors=limit)
+    except CaseTimeout:
+        # the monitor list of clean_up can grow exponentially; the property makes no claim
+        # about running time, so an unfinished clean-up decides nothing (counted as trivial)
+        return ok(False)
     learned = _normal(SG)
     table = {k: (tuple(v[0]), frozenset(v[1])) for k, v in numbs.items()}
     if set(table.values()) != set(learned) or len(table) != len(learned):
